@@ -453,6 +453,144 @@ def stage_scheduled(wd, V):
         cl.stop()
 
 
+def stage_follow(wd, V, rng, tier):
+    """C04 at the level a user sees: the real dtail binary follows a file on a real dserver while a writer appends to it -
+    whole lines, lines in two writes with a pause in between, lines ending in CR, CRs inside, blanks, lines longer than
+    Server.MaxLineLength (4096 here), small bursts.  Every appended line arrives exactly once, unmodified, in order (a line
+    beyond MaxLineLength in pieces of at most that length); a gap is permitted only where the next record reports a
+    transmission percentage below 100 (follow mode may drop lines for a slow client, visibly)."""
+    import subprocess
+    MAXL = 4096
+    base = os.path.join(wd, "e2e-follow")
+    d = os.path.join(base, "data")
+    os.makedirs(d, exist_ok=True)
+    for x in (wd, base, d):
+        os.chmod(x, 0o755)
+    path = os.path.join(d, "follow.log")
+    with open(path, "wb") as fh:
+        fh.write(b"old line 1\nold line 2\n")
+    os.chmod(path, 0o644)
+    cl = Cluster(os.path.join(base, "c"), 1, server_cfg={"MaxLineLength": MAXL})
+    if "dtail" not in _BINS or not os.path.exists(_BINS["dtail"]):
+        _BINS["dtail"] = vlib.go_build(wd, "./cmd/dtail", os.path.join(base, "dtail"), tags="")
+    cl.bins["dtail"] = _BINS["dtail"]
+    p = None
+    try:
+        p = subprocess.Popen(cl.client_cmd("dtail", path), cwd=cl.wd, env=vlib.goenv({"HOME": cl.wd}), stdin=subprocess.DEVNULL,
+                             stdout=subprocess.PIPE, stderr=subprocess.PIPE, bufsize=0)
+        os.set_blocking(p.stdout.fileno(), False)
+        got = bytearray()
+        def pump():
+            try:
+                while True:
+                    b = os.read(p.stdout.fileno(), 1 << 20)
+                    if not b:
+                        return
+                    got.extend(b)
+            except BlockingIOError:
+                pass
+        fh = open(path, "ab", buffering=0)
+        written = []            # complete lines in the order of their final newline
+        def wline(content, parts=1, pause=0.0):
+            data = content + b"\n"
+            if parts > 1:
+                cut = max(1, len(data) // 2)
+                fh.write(data[:cut])
+                time.sleep(pause)
+                pump()
+                fh.write(data[cut:])
+            else:
+                fh.write(data)
+            written.append(content)
+        # until the follow is live
+        deadline = time.time() + 25
+        k = 0
+        while time.time() < deadline and b"SYNC" not in got:
+            wline(b"SYNC %d" % k)
+            k += 1
+            time.sleep(0.1)
+            pump()
+        if b"SYNC" not in got:
+            V.diverge("follow stage: dtail delivered nothing within 25 s (stage not run): %r" % bytes(got[-200:]))
+            return 0
+        n = 0
+        nlines = 120 if tier == "quick" else 900
+        while n < nlines:
+            kind = rng.choice(["plain", "plain", "cr", "crcr", "crin", "blank", "twoparts", "long", "burst", "dot", "utf8"])
+            n += 1
+            tag = b"L%d:" % n
+            if kind == "plain":
+                wline(tag + b"some text | with ; delimiters")
+            elif kind == "cr":
+                wline(tag + b"ends in CR\r")
+            elif kind == "crcr":
+                wline(tag + b"\r\r")
+            elif kind == "crin":
+                wline(tag + b"CR \r inside")
+            elif kind == "blank":
+                wline(tag + b"   ")
+            elif kind == "dot":
+                wline(b"." + tag + b"starts with a dot")
+            elif kind == "utf8":
+                wline(tag + "é✓日".encode())
+            elif kind == "twoparts":
+                wline(tag + b"first half / second half", parts=2, pause=rng.choice([0.03, 0.15, 0.35]))
+            elif kind == "long":
+                wline(tag + b"h" * rng.choice([MAXL - 10, MAXL + 1, 2 * MAXL + 77, 3 * MAXL]), parts=rng.choice([1, 2]), pause=0.25)
+            elif kind == "burst":
+                for j in range(30):
+                    wline(tag + b"burst %d" % j)
+            time.sleep(rng.choice([0, 0, 0.01, 0.12]))
+            pump()
+        wline(b"END OF FOLLOW")
+        deadline = time.time() + 30
+        while time.time() < deadline and b"END OF FOLLOW" not in got:
+            time.sleep(0.05)
+            pump()
+        fh.close()
+        # ---- compare
+        recs = []
+        for rec in bytes(got).split(b"\n"):
+            f = rec.split(b"|", 5)
+            if len(f) == 6 and f[0] == b"REMOTE":
+                recs.append((f[2], f[5]))
+        first = next((i for i, (_, c) in enumerate(recs) if c.startswith(b"SYNC")), None)
+        start = written.index(recs[first][1]) if first is not None and recs[first][1] in written else None
+        if start is None:
+            V.violation("dtail over SSH: the first delivered line is not a line of the file", {"first_records": [r[1][:80].decode(errors="replace") for r in recs[:3]]})
+            return 1
+        exp = list(written[start:])
+        i = 0
+        bad = None
+        for perc, c in recs[first:]:
+            if i >= len(exp):
+                bad = "a line was delivered after the last appended line: %r" % c[:80]
+                break
+            if c == exp[i]:
+                i += 1
+                continue
+            if len(exp[i]) > MAXL and exp[i].startswith(c) and 0 < len(c) <= MAXL:
+                exp[i] = exp[i][len(c):]
+                continue
+            j = next((j for j in range(i + 1, min(len(exp), i + 400)) if exp[j] == c), None)
+            if j is not None and perc.strip() != b"100":
+                i = j + 1          # dropped for a slow client, and the record says so
+                continue
+            bad = ("appended line %r was not delivered as it is; the record in its place: %r (transmission %s%%)" %
+                   (exp[i][:60], c[:60], perc.decode(errors="replace")))
+            break
+        if bad is None and i < len(exp):
+            bad = "%d of %d appended lines delivered 30 s after the last one was written; first missing: %r" % (i, len(exp), exp[i][:60])
+        if bad:
+            V.violation("dtail over SSH, followed file: " + bad, {"lines_written": len(written), "records": len(recs)})
+        return 1
+    finally:
+        if p is not None:
+            p.kill()
+            p.communicate()
+        cl.stop()
+
+
 def stage_tail_stall(wd, V, tier="quick"):
     """the real dcat binary, serverless, plain mode: a consumer that stops reading for 6.5 s just before the end - the server
     side has handed everything over (its queues are empty, it gives up waiting for the close handshake after 5 s) while the
